@@ -15,7 +15,7 @@
 import asyncio
 import collections
 
-from contracts.c10_handlers import (BEARER, CHAN, CONN, ERR_INLINE, GHOST, HANDLER_KEYS, MOD, MTU, PDU_INLINE, RUN_IN_TASK, SERVER, SERVER_METHODS, ATTR_LIST,
+from contracts.c10_handlers import (BEARER, ERR_INLINE, GHOST, HANDLER_KEYS, MOD, MTU, PDU_INLINE, RUN_IN_TASK, SERVER, SERVER_METHODS, ATTR_LIST,
                                     env_ok, one_reply, rec_response)
 from spec.att import ATT_ERROR_RSP, ERR_REQUEST_NOT_SUPPORTED, REQUEST_OPCODES, answered, response_opcode
 
